@@ -142,11 +142,125 @@ def check_c43(ctx):
     ctx.assumptions.append("constant-time execution of removePadding is not checked")
 
 
-# ---------------------------------------------------------------------------------------- C42 / C45
+# ---------------------------------------------------------------------------------------- C42
+REGIONS = '"type", "vmaj", "vmin", "lenhi", "lenlo", "lenover", "first", "mid", "macstart", "pad", "last"'
+
+# peer / version / suite.  peer "go": Go's crypto/tls client (the standard peer); peer "bfe": bfe_tls's own
+# client, for what crypto/tls cannot speak (SSL 3.0, SM4-SM3) and as the receiver in the s2c direction.
+GO_MAIN = ["go/tls12/c02f", "go/tls12/cca8", "go/tls12/c013", "go/tls11/c013", "go/tls10/c013",
+           "go/tls12/000a", "go/tls10/000a", "go/tls12/0005", "go/tls10/c011", "go/tls12/002f"]
+GO_MORE = ["go/tls11/002f", "go/tls10/002f", "go/tls12/0035", "go/tls10/0035", "go/tls12/c014", "go/tls11/c014",
+           "go/tls11/000a", "go/tls12/c012", "go/tls11/c012", "go/tls10/c012", "go/tls11/0005", "go/tls10/0005",
+           "go/tls12/c011", "go/tls11/c011", "go/tls12/c02b", "go/tls12/cca9", "go/tls12/c009", "go/tls10/c009",
+           "go/tls12/c00a", "go/tls11/c00a", "go/tls12/c007", "go/tls10/c007", "go/tls10/c014", "go/tls11/c013"]
+BFE_MAIN = ["bfe/tls12/e019", "bfe/tls10/e019"]
+BFE_MORE = ["bfe/tls11/e019", "bfe/tls12/c02f",
+            "bfe/tls12/cca8", "bfe/tls12/c013", "bfe/tls10/c013", "bfe/tls12/0005"]
+
+
+def rec_gen(ctx, n, k):
+    d = {"N": n, "K": k}
+    r = ctx.tlc("Tls", "GenRecord", "Gen_Record.cfg", defines=d, timeout=1500, count=False)
+    if not r.ok:
+        raise vlib.MachineryError("GenRecord failed: %s %s" % (r.error or r.violation, r.out[-500:]))
+    # different action orders produce the same wire: one case per distinct wire
+    seen, out = set(), []
+    for c in r.cases:
+        key = json.dumps(c["wire"], sort_keys=True)
+        if key not in seen:
+            seen.add(key)
+            out.append(c)
+    return out
+
+
+def rec_run(ctx, cases, label):
+    if not cases:
+        raise vlib.MachineryError("no record cases (%s)" % label)
+    for i, c in enumerate(cases):
+        c["id"] = i + 1
+    res = ctx.harness("tlsrec", ["record-run"], cases=cases, timeout=3000,
+                      env={"GODEBUG": "tlsrsakex=1,tls3des=1,tls10server=1,tlsmaxrsasize=8192"})
+    summ = _need(res, "record-run")
+    rows = {r["id"]: r for r in res if "id" in r}
+    if summ["cases"] != len(cases) or len(rows) != len(cases):
+        raise vlib.MachineryError("record-run answered %d of %d cases" % (len(rows), len(cases)))
+    mach = [r for r in rows.values() if "machinery" in r]
+    if mach:
+        raise vlib.MachineryError("record-run could not drive %d cases, e.g. %s" % (len(mach), mach[0]["machinery"]))
+    drift = [r for r in rows.values() if r.get("drift")]
+    if drift:
+        ctx.drift("action=Recv %d observations differ from the mechanism model, e.g. %s" %
+                  (len(drift), drift[0]["drift"]))
+    nbad = 0
+    for c in cases:
+        r = rows[c["id"]]
+        ctx.count([c["combo"], c["wire"]], nontrivial=c["wire"] != [] )
+        if not r["ok"]:
+            nbad += 1
+            rc = dict(c)
+            rc.pop("id", None)
+            ctx.report(r["sig"], r.get("detail", ""), case={"kind": "record", "case": rc},
+                       harness="tlsrec", cmd="record-run")
+    ctx.traces(len(cases))
+    for c in cases[1:2] + cases[len(cases) // 2:len(cases) // 2 + 1]:
+        ctx.sample({"combo": c["combo"], "wire": c["wire"], "expP": c["expP"], "observed": rows[c["id"]].get("obs")})
+    return nbad
+
+
 def check_c42(ctx):
-    raise vlib.MachineryError("not built yet")
+    q = ctx.tier == "quick"
+    mcd = {"N": 3 if q else 4, "K": 2}
+    ctx.cov["constants"]["MC_Record"] = dict(mcd, regions=REGIONS.replace('"', ""))
+    ctx.tlc_must_pass("Tls", "Record", "MC_Record.cfg", defines=mcd, timeout=2400, coverage=not q)
+    rnd = random.Random(ctx.seed * 104729 + 42)
+    allw = rec_gen(ctx, 3 if q else 4, 2)
+    singles = [c for c in allw if len(c["acts"]) <= 1]
+    pairs = [c for c in allw if len(c["acts"]) == 2]
+    ctx.cov["constants"]["Gen_Record"] = {"singles": "N=%d,K<=1 (%d wires)" % (3 if q else 4, len(singles)),
+                                          "pairs": "N=%d,K=2 (%d wires)" % (3 if q else 4, len(pairs))}
+    cases = []
+
+    def add(combo, d, pool, num):
+        pick = pool if num is None or num >= len(pool) else rnd.sample(pool, num)
+        for c in pick:
+            cc = dict(c)
+            cc["combo"] = combo + "/" + d
+            cases.append(cc)
+
+    if q:
+        for cb in GO_MAIN + BFE_MAIN:
+            add(cb, "c2s", singles, None)
+            add(cb, "c2s", pairs, 60)
+        for cb in ["bfe/tls12/c02f", "bfe/tls10/c013", "bfe/tls11/0005", "go/tls12/c02f", "go/tls10/c013"]:
+            add(cb, "s2c", singles, 40)
+    else:
+        for cb in GO_MAIN + BFE_MAIN + GO_MORE + BFE_MORE:
+            add(cb, "c2s", singles, None)
+        for cb in GO_MAIN + BFE_MAIN:
+            add(cb, "c2s", pairs, 1500)
+        for cb in GO_MORE + BFE_MORE:
+            add(cb, "c2s", pairs, 150)
+        for cb in GO_MAIN + BFE_MAIN + BFE_MORE:
+            add(cb, "s2c", singles, None)
+            add(cb, "s2c", pairs, 100)
+    ctx.cov["rule"] = ("cases = wires enumerated by TLC from GenRecord (every single adversary action on 3 (quick) / 4 records; "
+                       "every / a seeded sample of the distinct wires reachable with 2 actions) x (peer, version, "
+                       "cipher suite, direction); each is played by a record-level man-in-the-middle on net.Pipe "
+                       "between the peer and the real bfe_tls connection after an untouched handshake; judged: bytes "
+                       "delivered by Conn.Read are a prefix of the sent stream, nothing at or behind the first "
+                       "non-authentic record is delivered, the run ends in an error that is not a clean EOF when a "
+                       "non-authentic record reached the receiver. distinct = distinct (combo, wire).")
+    ctx.cov["exhaustive"] = False
+    ctx.cov["constants"]["combos"] = {"c2s": len({c["combo"] for c in cases if c["combo"].endswith("c2s")}),
+                                      "s2c": len({c["combo"] for c in cases if c["combo"].endswith("s2c")})}
+    rec_run(ctx, cases, "C42")
+    ctx.assumptions.append("MAC/AEAD unforgeability is assumed (spec), not tested; the adversary never holds keys")
+    ctx.assumptions.append("loss of the tail of the stream (whole records or < 5 header bytes) ends in a clean EOF: "
+                           "bfe_tls does not require close_notify (documented leniency, named in Record.tla)")
+    ctx.assumptions.append("handshake records are passed through untouched (handshake tampering belongs to C41)")
 
 
+# ---------------------------------------------------------------------------------------- C45
 def check_c45(ctx):
     raise vlib.MachineryError("not built yet")
 
@@ -159,6 +273,8 @@ def replay(ctx, pid, rep):
     kind = case.get("kind")
     if kind == "padding":
         pad_replay(ctx, [dict(case["case"])], "replay")
+    elif kind == "record":
+        rec_run(ctx, [dict(case["case"])], "replay")
     else:
         raise vlib.MachineryError("unknown replay kind %r" % kind)
     rc = ctx.finish()
